@@ -525,7 +525,49 @@ fn gen_class(r: &mut Rng, depth: usize) -> String {
     s
 }
 
+/// unsupported features (C15): input holds "ok" or "err": whether the single pattern must build
+fn run_unsupported_case(c: &Case) -> Result<(), String> {
+    let r = catch_unwind(AssertUnwindSafe(|| {
+        let built = build(&c.modes).is_ok();
+        let want = c.input == "ok";
+        if built != want {
+            return Err(format!("pattern {:?}: build is_ok = {}, expected {}", c.modes[0].pats[0].p, built, want));
+        }
+        Ok(())
+    }));
+    match r { Ok(x) => x, Err(_) => Err(format!("PANIC while building {:?}", c.modes[0].pats[0].p)) }
+}
+
+fn gen_supported(r: &mut Rng, depth: usize) -> String {
+    const LEAVES: &[&str] = &["a", "b", "[a-c]", ".", "\\d", "[^x]", "ab", "é"];
+    if depth == 0 { return r.pick(LEAVES).to_string(); }
+    match r.below(7) {
+        0 => format!("({})", gen_supported(r, depth - 1)),
+        1 => format!("(?:{})", gen_supported(r, depth - 1)),
+        2 => format!("{}{}", gen_supported(r, depth - 1), gen_supported(r, depth - 1)),
+        3 => format!("(?:{}|{})", gen_supported(r, depth - 1), gen_supported(r, depth - 1)),
+        4 => format!("(?:{}){}", gen_supported(r, depth - 1), r.pick(&["*", "+", "?", "{2}", "{1,}", "{1,2}"])),
+        _ => r.pick(LEAVES).to_string(),
+    }
+}
+/// plants one unsupported construct somewhere
+fn gen_unsupported(r: &mut Rng, depth: usize) -> String {
+    const BAD: &[&str] = &["^", "$", "\\b", "\\B", "(?i)", "a*?", "a+?", "a??", "(?i:a)", "a{1,2}?", "\\A", "\\z", "(?s-i:b)"];
+    if depth == 0 { return r.pick(BAD).to_string(); }
+    match r.below(6) {
+        0 => format!("({})", gen_unsupported(r, depth - 1)),
+        1 => format!("{}{}", gen_supported(r, depth - 1), gen_unsupported(r, depth - 1)),
+        2 => format!("{}{}", gen_unsupported(r, depth - 1), gen_supported(r, depth - 1)),
+        3 => format!("(?:{}|{})", gen_supported(r, depth - 1), gen_unsupported(r, depth - 1)),
+        4 => format!("(?:{}){}", gen_unsupported(r, depth - 1), r.pick(&["*", "+", "?", "{2}"])),
+        _ => format!("(?:{}|{}|{})", gen_supported(r, 0), gen_supported(r, 0), gen_unsupported(r, depth - 1)),
+    }
+}
+
 fn run_any(c: &Case) -> Result<(), String> {
+    if c.family == "unsupported" {
+        return run_unsupported_case(c);
+    }
     if c.family == "classes" {
         return run_class_case(c);
     }
@@ -659,6 +701,15 @@ fn gen_case(family: &str, r: &mut Rng) -> Case {
             let ops = (0..nops).map(|_| Op::SetMode(r.below(9))).collect();
             Case { family: family.into(), modes: vec![ModeSpec { name: "M0".into(), pats, trans: vec![] }], input, start_offset: 0, ops, with_positions: false }
         }
+        "unsupported" => {
+            let bad = r.below(2) == 0;
+            let d = r.below(4);
+            let p = if bad { gen_unsupported(r, d) } else { gen_supported(r, d) };
+            let in_la = r.below(4) == 0;
+            let pats = if in_la { vec![PatSpec { p: "a".into(), tt: 0, la: Some((r.below(2) == 0, p)) }] } else { vec![PatSpec { p, tt: 0, la: None }] };
+            Case { family: family.into(), modes: vec![ModeSpec { name: "M0".into(), pats, trans: vec![] }],
+                   input: if bad { "err".into() } else { "ok".into() }, start_offset: 0, ops: vec![], with_positions: false }
+        }
         "classes" => {
             let p = gen_class(r, 2);
             Case { family: family.into(), modes: vec![ModeSpec { name: "M0".into(), pats: vec![PatSpec { p, tt: 0, la: None }], trans: vec![] }],
@@ -685,6 +736,7 @@ fn gen_case(family: &str, r: &mut Rng) -> Case {
 
 /// the reference model itself must accept the case (regex crate compiles the patterns, scnr builds them)
 fn usable(c: &Case) -> bool {
+    if c.family == "unsupported" { return true; }
     for m in &c.modes {
         for p in &m.pats {
             if Regex::new(&p.p).is_err() {
